@@ -62,7 +62,7 @@ def push_node(chk, F, rule, cfg):
     for p in rets:
         ins = list(p.calls(r'OnceCell::try_insert$'))
         # (looking at a cell with `get` changes nothing: only try_insert puts a node into the chain)
-        others = [e.data[1] for e in p.calls() if not re.search(r'(OnceCell::try_insert|OnceCell::get|Deref>?::deref|Box.*as_ref|AsRef>?::as_ref)$', e.data[1])]
+        others = [e.data[1] for e in p.calls() if not re.search(r'(OnceCell::try_insert|OnceCell::get|Deref>?::deref|Box.*as_ref|AsRef>?::as_ref|^std::boxed::Box::new)$', e.data[1])]   # (the node may live in a Box of its own)
         r = strip(p.outcome[1])
         # &*(try_insert(..) as Ok).0
         # (possibly seen through the Box the node lives in: `&**ok.0`)
@@ -77,7 +77,7 @@ def push_node(chk, F, rule, cfg):
         for i, e in enumerate(ins):
             cell, node = strip(e.data[2][0]), strip(e.data[2][1])
             if i == 0:
-                okn = node == ('param', 0, 2)
+                okn = node == ('param', 0, 2) or (is_call(node, r'^std::boxed::Box::new$') and len(node[2]) == 1 and strip(node[2][0]) == ('param', 0, 2))
                 okc = chain_cell(cell)
             else:
                 pv = ('call', prev.data[1], prev.data[2], prev.data[3])
